@@ -91,6 +91,8 @@ func (tc *TarsClient) SendContext(ctx context.Context, req []byte) error {
 
 	select {
 	case tc.sendQueue <- sendMsg{req: req}:
+		// the connection may have been lost between the check above and the enqueue
+		_ = tc.ReConnect()
 		return nil
 	default:
 	}
@@ -107,6 +109,8 @@ func (tc *TarsClient) SendContext(ctx context.Context, req []byte) error {
 	case <-ctx.Done():
 		return errors.New("tars client write timeout: " + ctx.Err().Error())
 	case tc.sendQueue <- sendMsg{req: req}:
+		// the connection may have been lost between the check above and the enqueue
+		_ = tc.ReConnect()
 		return nil
 	}
 }
@@ -182,6 +186,7 @@ func (c *connection) send(conn net.Conn, connDone chan bool) {
 	for {
 		select {
 		case <-connDone: // connection closed
+			c.reconnectIfPending()
 			return
 		default:
 		}
@@ -190,6 +195,10 @@ func (c *connection) send(conn net.Conn, connDone chan bool) {
 		case m = <-c.client.sendFailQueue: // Send failure queue messages first
 		default:
 			select {
+			case <-connDone: // connection closed: leave the queues to the sender of the next connection
+				c.reconnectIfPending()
+				return
+			case m = <-c.client.sendFailQueue:
 			case m = <-c.client.sendQueue: // Fetch jobs
 			case <-t.C:
 				if c.isClosed {
@@ -217,7 +226,7 @@ func (c *connection) send(conn net.Conn, connDone chan bool) {
 			TLOG.Errorf("send request retry: %d, error: %v", m.retry, err)
 			c.client.sendFailQueue <- m
 			c.close(conn)
-			if err != net.ErrClosed {
+			if !errors.Is(err, net.ErrClosed) {
 				return
 			}
 
@@ -226,6 +235,15 @@ func (c *connection) send(conn net.Conn, connDone chan bool) {
 				TLOG.Errorf("send request reconnect error: %v", err)
 			}
 			return
+		}
+	}
+}
+
+// reconnectIfPending gives the requests still queued for a lost connection a new one.
+func (c *connection) reconnectIfPending() {
+	if len(c.client.sendQueue) > 0 || len(c.client.sendFailQueue) > 0 {
+		if err := c.ReConnect(); err != nil {
+			TLOG.Errorf("reconnect for queued requests error: %v", err)
 		}
 	}
 }
@@ -290,7 +308,9 @@ func (c *connection) recv(conn net.Conn, connDone chan bool) {
 func (c *connection) close(conn net.Conn) {
 	c.connLock.Lock()
 	defer c.connLock.Unlock()
-	c.isClosed = true
+	if conn == c.conn { // the loss of an earlier connection must not mark the current one closed
+		c.isClosed = true
+	}
 	if conn != nil {
 		_ = conn.Close()
 	}
